@@ -13,6 +13,7 @@ buckets empty), from which `no_null_deref` follows: `janet_dict_find` never retu
 its result, so none of the theorems needs a side condition on the run.
 -/
 import JanetModel.Table.Pow2
+import JanetModel.Table.StructLemmas
 import JanetModel.Seq.BufOps
 
 namespace JanetModel.Props.C04
@@ -332,6 +333,113 @@ theorem merge_eq_puts (h : Nat → Nat) (kvs : List Slot) (t : Table) :
     | none => simp [hk]
     | some k => simp [hk, run, step, Table.put]
 
+/-! ### capacity is a power of two in every reachable state (session 3)
+
+`count` grows by at most one per stored entry, so a bound on the number of entries a history can store bounds every
+intermediate `2 * count + 2` below 2^32 — the only place the per-step theorem needed a size hypothesis.  The bound
+2^30 is the C's own limit: beyond it `2 * count + 2` overflows `int32_t` in `janet_table_put`. -/
+
+theorem count_remove_le (h : Nat → Nat) (t : Table) (k : Nat) : (t.remove h k).1.count ≤ t.count := by
+  unfold Table.remove
+  cases hit t.data (dictFind h t.data k) with
+  | some i => simp only []; omega
+  | none => exact Nat.le_refl _
+
+theorem count_putKey_le (h : Nat → Nat) (t : Table) (k : Nat) (v : Val) : (t.putKey h k v).count ≤ t.count + 1 := by
+  unfold Table.putKey
+  by_cases hv : v = vNil
+  · simp only [hv, if_true]; have := count_remove_le h t k; omega
+  · simp only [hv, if_false]
+    cases hit t.data (dictFind h t.data k) with
+    | some i => simp only []; omega
+    | none =>
+      simp only []
+      unfold Table.insertNew Table.insertAt
+      have h1 : (t.maybeRehash h (dictFind h t.data k)).count = t.count := by
+        unfold Table.maybeRehash
+        by_cases c : ((dictFind h t.data k).isNone || rehashNeeded t.count t.deleted t.capacity) = true
+        · rw [if_pos c]; rfl
+        · rw [if_neg c]
+      cases dictFind h (t.maybeRehash h (dictFind h t.data k)).data k with
+      | none => simp only []; omega
+      | some j => simp only []; omega
+
+/-- `put` with a count bound instead of a size bound -/
+theorem pow2_putKey (h : Nat → Nat) (t : Table) (hp : IsPow2 t.data.size) (hc : t.count < 2 ^ 31 - 1) (k : Nat) (v : Val) :
+    IsPow2 (t.putKey h k v).data.size := by
+  rcases size_putKey h t k v with e | e
+  · rw [e]; exact hp
+  · rw [e]
+    obtain ⟨e', he'⟩ := tablen_pow2 (2 * t.count + 2) (by omega)
+    exact ⟨e', by unfold rehashSize; exact he'⟩
+
+theorem pow2_mergekv (h : Nat → Nat) (kvs : List Slot) : ∀ (t : Table), IsPow2 t.data.size →
+    t.count + kvs.length < 2 ^ 31 - 1 →
+    IsPow2 (t.mergekv h kvs).data.size ∧ (t.mergekv h kvs).count ≤ t.count + kvs.length := by
+  induction kvs with
+  | nil => intro t hp _; exact ⟨hp, Nat.le_refl _⟩
+  | cons kv rest ih =>
+    intro t hp hb
+    have e : t.mergekv h (kv :: rest) = (match kv.key with | some k => t.putKey h k kv.val | none => t).mergekv h rest := rfl
+    rw [e]
+    simp only [List.length_cons] at hb ⊢
+    cases hk : kv.key with
+    | none =>
+      simp only []
+      have := ih t hp (by omega)
+      exact ⟨this.1, by omega⟩
+    | some k =>
+      simp only []
+      have hc := count_putKey_le h t k kv.val
+      have := ih (t.putKey h k kv.val) (pow2_putKey h t hp (by omega) k kv.val) (by omega)
+      exact ⟨this.1, by omega⟩
+
+/-- number of entries an operation can add -/
+def Op.weight : Op → Nat
+  | .put _ _ => 1
+  | .merge kvs => kvs.length
+  | _ => 0
+
+theorem pow2_step_bounded (h : Nat → Nat) (t : Table) (hp : IsPow2 t.data.size) (op : Op)
+    (hb : t.count + op.weight < 2 ^ 31 - 1) :
+    IsPow2 (step h t op).data.size ∧ (step h t op).count ≤ t.count + op.weight := by
+  cases op with
+  | put k v =>
+    cases k with
+    | nil => exact ⟨hp, by simp [step, Table.put]⟩
+    | nan => exact ⟨hp, by simp [step, Table.put]⟩
+    | key k =>
+      simp only [Op.weight] at hb ⊢
+      exact ⟨pow2_putKey h t hp (by omega) k v, count_putKey_le h t k v⟩
+  | remove k =>
+    refine ⟨?_, ?_⟩
+    · show IsPow2 (t.remove h k).1.data.size; rw [size_remove]; exact hp
+    · have := count_remove_le h t k; simp only [Op.weight]; exact this
+  | clear =>
+    refine ⟨?_, ?_⟩
+    · show IsPow2 (Array.replicate t.data.size Slot.empty).size; simpa using hp
+    · show (0 : Nat) ≤ _; omega
+  | merge kvs => exact pow2_mergekv h kvs t hp hb
+  | setproto p => exact ⟨hp, Nat.le_refl _⟩
+
+/-- **capacity_pow2 for all reachable states**: from any table whose capacity is a power of two, after any list of
+operations that can store fewer than 2^30 entries in total, the capacity is a power of two -/
+theorem capacity_pow2_reachable (h : Nat → Nat) (ops : List Op) : ∀ (t : Table), IsPow2 t.data.size →
+    t.count + (ops.map Op.weight).sum < 2 ^ 30 → IsPow2 (run h t ops).data.size := by
+  induction ops with
+  | nil => intro t hp _; exact hp
+  | cons op rest ih =>
+    intro t hp hb
+    simp only [List.map_cons, List.sum_cons] at hb
+    have hs := pow2_step_bounded h t hp op (by omega)
+    have := ih (step h t op) hs.1 (by omega)
+    simpa [run] using this
+
+/-- ... in particular from a fresh table -/
+theorem capacity_pow2_run (h : Nat → Nat) (ops : List Op) (n : Nat) (hn : n < 2 ^ 32)
+    (hb : (ops.map Op.weight).sum < 2 ^ 30) : IsPow2 (run h (Table.init n) ops).data.size :=
+  capacity_pow2_reachable h ops (Table.init n) (capacity_pow2_init n hn) (by simpa [Table.init] using hb)
+
 /-- `rawget` reads exactly the bucket array: present key ↦ its value, absent key ↦ nil -/
 theorem rawget_spec (h : Nat → Nat) (t : Table) (inv : Inv h t) (k : Nat) :
     (∀ i, (slotAt t.data i).key = some k → t.rawget h k = (slotAt t.data i).val ∧ t.rawget h k ≠ vNil) ∧
@@ -400,6 +508,112 @@ theorem rehash_has_room (count : Nat) : 2 * count + 2 < rehashSize count := by
 /-- non-vacuity: a table with two colliding keys, a tombstone and a rehash behind it satisfies the hypotheses -/
 example : (run (fun _ => 7) (Table.init 0)
     [.put (.key 1) 5, .put (.key 2) 6, .put (.key 3) 7, .remove 2, .put (.key 4) 1, .put (.key 1) 0]).deleted = 2 := by decide
+
+/-! ## Session 3 — structs are finite maps; conversions between tables and structs
+
+`SInv h s` (Table/StructLemmas.lean) = the bucket array of the struct satisfies the same structural invariant as a
+table's (`DInv`) and has no tombstone.  Under it `janet_struct_find` reads the array exactly as `janet_dict_find`
+does.  That the robin-hood insertion `janet_struct_put_ext` establishes `SInv` is NOT proved in this model (C03 has the
+layout theorem in its own model of struct.c): it is a **checked certificate** — `checkSInv` / `certToStruct` are
+executable, proved sound below, and `jm_c04` evaluates them on every struct a history builds (`mkstruct`, `withproto`,
+`tostruct`, `freeze`), the very struct whose slot array is compared with the implementation's. -/
+
+theorem struct_inv_of_check (h : Nat → Nat) (s : Struct) (hc : checkSInv h s.data = true) : SInv h s :=
+  ⟨(checkSInv_sound h s.data hc).1, (checkSInv_sound h s.data hc).2⟩
+
+/-- `struct/rawget` reads exactly the bucket array: present key ↦ its non-nil value, absent key ↦ nil -/
+theorem struct_rawget_spec (h : Nat → Nat) (s : Struct) (inv : SInv h s) (k : Nat) :
+    (∀ i, (slotAt s.data i).key = some k → s.rawget h k = (slotAt s.data i).val ∧ s.rawget h k ≠ vNil) ∧
+    ((∀ i, (slotAt s.data i).key ≠ some k) → s.rawget h k = vNil) :=
+  ⟨fun _ hi => struct_rawget_hit inv hi, fun hno => struct_rawget_miss inv hno⟩
+
+/-- **struct lookups fall back along the struct prototype chain** (`janet_struct_get_ex`): the struct's own entry if
+it has one, else the prototype's answer, for at most `JANET_MAX_PROTO_DEPTH` levels -/
+theorem struct_get_spec (h : Nat → Nat) (heap : Nat → Option Struct) (hinv : ∀ r s, heap r = some s → SInv h s)
+    (k : Nat) (fuel : Nat) (r : Nat) :
+    structGetChain h heap k (fuel + 1) (some r) =
+      match heap r with
+      | none => vNil
+      | some s => if s.rawget h k ≠ vNil then s.rawget h k else structGetChain h heap k fuel s.proto :=
+  JanetModel.Table.struct_get_spec h heap hinv k fuel r
+
+theorem struct_get_depth_cutoff (h : Nat → Nat) (heap : Nat → Option Struct) (k : Nat) (r : Option Nat) :
+    structGetChain h heap k 0 r = vNil := JanetModel.Table.struct_get_depth_cutoff h heap k r
+
+/-- **only lookups consult the struct prototype**: `struct/rawget`, `next`, `length` do not depend on it
+(`struct/with-proto` = same entries, another link; `struct/getproto` = the link) -/
+theorem struct_proto_irrelevant (h : Nat → Nat) (s : Struct) (p : Option Nat) (k : Nat) :
+    ({ s with proto := p }).rawget h k = s.rawget h k ∧
+    dictNext h ({ s with proto := p }).data (some k) = dictNext h s.data (some k) ∧
+    dictNext h ({ s with proto := p }).data none = dictNext h s.data none ∧
+    ({ s with proto := p }).length = s.length ∧ ({ s with proto := p }).proto = p :=
+  ⟨rfl, rfl, rfl, rfl, rfl⟩
+
+/-- iteration over a struct visits every key exactly once -/
+theorem struct_next_visits_each_key_once (h : Nat → Nat) (s : Struct) (inv : SInv h s) :
+    iterNext h s.data (s.data.size + 1) none = keysOf s.data ∧ (keysOf s.data).Nodup ∧
+      ∀ k, k ∈ keysOf s.data ↔ s.rawget h k ≠ vNil := by
+  have := iterNext_all inv.d
+  refine ⟨this.1, this.2.1, ?_⟩
+  intro k
+  rw [struct_rawget_eq_dict inv k]
+  exact this.2.2 k
+
+theorem updKV_eq : (fun (m : Nat → Val) (kv : Slot) => match kv.key with | some k => upd m k kv.val | none => m) = updKV := by
+  funext m kv
+  unfold updKV upd
+  cases kv.key <;> rfl
+
+/-- **`struct/to-table`**: a table without prototype, satisfying the table invariant, with exactly the struct's map -/
+theorem struct_to_table_spec (h : Nat → Nat) (s : Struct) (inv : SInv h s) (c : Nat) :
+    Inv h (s.toTable h c) ∧ (s.toTable h c).proto = none ∧ ∀ k, abs h (s.toTable h c) k = s.rawget h k := by
+  have hm := inv_merge h s.data.toList (Table.init c) (inv_init h c)
+  refine ⟨hm.1, ?_, ?_⟩
+  · show ((Table.init c).mergekv h s.data.toList).proto = none
+    rw [proto_mergekv]; rfl
+  · intro k
+    show abs h ((Table.init c).mergekv h s.data.toList) k = _
+    rw [hm.2]
+    show (s.data.toList.foldl (fun m kv => match kv.key with | some k => upd m k kv.val | none => m) (abs h (Table.init c))) k = _
+    rw [updKV_eq]
+    by_cases ck : ∃ i, (slotAt s.data i).key = some k
+    · obtain ⟨i, hi⟩ := ck
+      rw [fold_buckets_hit inv.d _ hi, (struct_rawget_hit inv hi).1]
+    · have hno : ∀ i, (slotAt s.data i).key ≠ some k := fun i hi => ck ⟨i, hi⟩
+      rw [fold_buckets_miss _ hno, struct_rawget_miss inv hno]
+      exact abs_init h c k
+
+/-- **`table/to-struct`, certified**: when the certificate of a conversion checks (`certToStruct`, evaluated by the
+model driver on every conversion of every history), the struct satisfies the struct invariant and is the same map -/
+theorem to_struct_certified (h : Nat → Nat) (t : Table) (inv : Inv h t) (s : Struct) (hc : certToStruct h t s = true) :
+    SInv h s ∧ ∀ k, s.rawget h k = abs h t k := by
+  unfold certToStruct at hc
+  rw [Bool.and_eq_true] at hc
+  have si := struct_inv_of_check h s hc.1
+  refine ⟨si, ?_⟩
+  intro k
+  rw [struct_rawget_eq_dict si k]
+  exact (checkSameMap_sound inv.d si.d hc.2 k).symm
+
+/-- **`thaw (freeze t)` / `struct/to-table (table/to-struct t)` has the same finite map** (and no prototype), for
+every certified conversion -/
+theorem thaw_freeze_same_map (h : Nat → Nat) (rank : Nat → Nat) (t : Table) (inv : Inv h t)
+    (hc : certToStruct h t (t.toStruct h rank) = true) (c : Nat) :
+    Inv h ((t.toStruct h rank).toTable h c) ∧ ((t.toStruct h rank).toTable h c).proto = none ∧
+      abs h ((t.toStruct h rank).toTable h c) = abs h t := by
+  have hs := to_struct_certified h t inv _ hc
+  have ht := struct_to_table_spec h _ hs.1 c
+  exact ⟨ht.1, ht.2.1, funext (fun k => by rw [ht.2.2 k, hs.2 k])⟩
+
+/-- `table/rawget` / `table/getproto` / `table/setproto`: `rawget` ignores the link, `getproto` returns it -/
+theorem table_rawget_ignores_proto (h : Nat → Nat) (t : Table) (p : Option Nat) (k : Nat) :
+    (step h t (.setproto p)).rawget h k = t.rawget h k ∧ (step h t (.setproto p)).proto = p := ⟨rfl, rfl⟩
+
+/-- non-vacuity: the certificate checks on a concrete conversion with colliding keys and a tombstone behind it -/
+example : certToStruct (fun k => 7 * k) (run (fun k => 7 * k) (Table.init 0)
+    [.put (.key 1) 5, .put (.key 9) 6, .put (.key 17) 7, .remove 9, .put (.key 4) 3])
+    ((run (fun k => 7 * k) (Table.init 0)
+    [.put (.key 1) 5, .put (.key 9) 6, .put (.key 17) 7, .remove 9, .put (.key 4) 3]).toStruct (fun k => 7 * k) id) = true := by decide
 
 end JanetModel.Props.C04
 
